@@ -9,7 +9,7 @@ sys.path.insert(0, HERE)
 
 MODULES = {
     "C01": "p_cc", "C02": "p_cc", "C03": "p_cc",
-    "C05": "p_socks", "C06": "p_socksreq", "C12": "p_kv", "C13": "p_kv", "C20": "p_am", "C07": "p_tsm", "C08": "p_tsm", "C09": "p_att", "C10": "p_cfg", "C11": "p_cfg", "C15": "p_ou", "C14": "p_oa", "C17": "p_ol", "C16": "p_cons", "C18": "p_sp", "C19": "p_la",
+    "C05": "p_socks", "C06": "p_socksreq", "C12": "p_kv", "C13": "p_kv", "C20": "p_am", "C07": "p_tsm", "C08": "p_tsm", "C09": "p_att", "C10": "p_cfg", "C11": "p_cfg", "C15": "p_ou", "C14": "p_oa", "C17": "p_ol", "C16": "p_cons", "C18": "p_sp", "C19": "p_la", "C04": "p_au",
 }
 
 
